@@ -309,6 +309,15 @@ def _run_unit(job):
         obs = func(ctx)
         obs = [ob for ob in list(obs or []) if (ob.prop or prop) == prop]
         for i, ob in enumerate(obs):
+            if ob.meta.get("kind") == "cover":
+                # reachability clause: the situation the neighbouring obligations talk about must be possible (else they are vacuous)
+                c = canary(type(ob)(ob.name, list(ob.pc) + [ob.goal if not isinstance(ob.goal, bool) else z3.BoolVal(ob.goal)], True, ob.prop, ob.meta))
+                out["canaries"]["checked"] += 1
+                if c != "sat":
+                    out["canaries"]["vacuous"] += 1
+                    out["status"] = "undecided"
+                    out["reason"] = f"cover clause not reachable ({c}): {ob.name}"
+                continue
             r = discharge(ob, want_smt=(i % 37 == 0))
             r["unit"] = name
             if tier == "thorough" and i % 10 == 0 and i < 600 and r["result"] == "unsat" and r["backend"].startswith("z3"):
@@ -501,7 +510,10 @@ def main(argv=None):
         outs = pool.map(_run_unit, jobs, chunksize=1)
     results = [r for o in outs for r in o["results"]]
     extra = getattr(mod, "extra_checks", None)
-    extra_out = extra(a.tier, seed) if extra else {}
+    try:
+        extra_out = extra(a.tier, seed) if extra else {}
+    except Unsupported as e:
+        extra_out = {"undecided": [f"unit=extra-checks reason=out of subset: {e}"]}
     if a.tier == "thorough" and not a.only:
         thorough_extras(prop, results, extra_out)
     findings = load_findings()
